@@ -289,15 +289,16 @@ impl Engine for XferEngine {
                     let res = guard(|| {
                         let mut up = Unpacker::new(&bytes);
                         let r = match m.kind {
-                            0 => recv.snap_empty(&mut warns, msg::SnapEmpty::decode(&mut pw, &mut up).expect("decode")),
-                            1 => recv.snap_single(&mut warns, msg::SnapSingle::decode(&mut pw, &mut up).expect("decode")),
-                            _ => recv.snap(&mut warns, msg::Snap::decode(&mut pw, &mut up).expect("decode")),
+                            0 => recv.snap_empty(&mut warns, msg::SnapEmpty::decode(&mut pw, &mut up).unwrap_or_else(|e| panic!("TW2SIM-DECODE a message produced by the real encoder failed to decode: {:?}", e))),
+                            1 => recv.snap_single(&mut warns, msg::SnapSingle::decode(&mut pw, &mut up).unwrap_or_else(|e| panic!("TW2SIM-DECODE a message produced by the real encoder failed to decode: {:?}", e))),
+                            _ => recv.snap(&mut warns, msg::Snap::decode(&mut pw, &mut up).unwrap_or_else(|e| panic!("TW2SIM-DECODE a message produced by the real encoder failed to decode: {:?}", e))),
                         };
                         r.map(|o| o.map(|rd| (rd.tick, rd.delta_tick, rd.data_and_crc.map(|(d, c)| (d.to_vec(), c)))))
                     });
                     ctx.oracle_event = true;
                     let res = match res {
                         Ok(r) => r,
+                        Err(p) if p.msg.starts_with("TW2SIM-DECODE") => return Some(Self::v("valid-message-rejected-by-decoder", &[], format!("tick {} part {}/{} ({} data bytes): {}", t, m.part, tr.num_parts, tr.data.len(), p.msg))),
                         Err(p) => return Some(Self::v("panic", &[("where", "receiver"), ("message", &p.msg_class()), ("file", &p.file_class())], format!("receiver panicked on tick {} part {}: {} at {}:{}", t, m.part, p.msg, p.file, p.line))),
                     };
                     ctx.logf(|| format!("deliver tick {} part {}/{} -> {}", t, m.part, tr.num_parts, match &res { Ok(Some(_)) => "Ok(Some)".to_string(), Ok(None) => "Ok(None)".into(), Err(e) => format!("Err({:?})", e) }));
